@@ -7,8 +7,9 @@
    eval/veq      = Spec/PyEval.v  (CPython on the emitted subset; NaN-tolerant ==)
    wf            = invariants of real object graphs (fields match the class, dict keys
                    distinct hashable scalars, Decimal/float/date payloads well-formed)
-   guard         = g_imports && g_init && g_std, one clause per
-                   refutation below *)
+   guard         = g_imports && g_init, one clause per refutation below (the clauses
+                   g_array, g_enum, g_raw, g_std were deleted when the defects were
+                   repaired in /repo: a2ce0be, fc8f170, 06e145c, db048b1) *)
 From Coq Require Import NArith ZArith List Bool String.
 From XV Require Import Base.Str Spec.PyEval Model.Pycode Proofs.Pycode Proofs.PycodeRefuted.
 Import ListNotations.
@@ -30,18 +31,6 @@ Theorem C18_init_false_refuted :
 Proof. exists W_wit, wit_init. exact init_false_refuted. Qed.
 Print Assumptions C18_init_false_refuted.
 
-Theorem C18_stdlib_datetime_refuted :
-  exists W o, wf W o = true /\ only_std W o = true /\ roundtrip W o = false.
-Proof. exists W_wit, wit_std. exact std_refuted. Qed.
-Print Assumptions C18_stdlib_datetime_refuted.
-
-(* the import lines are not sufficient without the g_std clause *)
-Theorem C18_imports_sufficient_std_refuted :
-  exists W o n, wf W o = true /\ In n (heads (repr W o)) /\ is_builtin n = false /\
-                existsb (fun p => str_eqb (snd p) n) (imports W o) = false.
-Proof. exists W_wit, wit_std, (lit "datetime"). exact imports_sufficient_std_refuted. Qed.
-Print Assumptions C18_imports_sufficient_std_refuted.
-
 (* inside the guard: all worlds, all instances, no bound *)
 Theorem C18_pycode_evals_back :
   forall W o, wf W o = true -> guard W o = true ->
@@ -49,9 +38,12 @@ Theorem C18_pycode_evals_back :
 Proof. exact pycode_evals_back. Qed.
 Print Assumptions C18_pycode_evals_back.
 
+(* no guard at all: every name the expression needs is a builtin or bound by an emitted
+   `from m import n` / `import m` line *)
 Theorem C18_imports_sufficient :
-  forall W o, wf W o = true -> g_std W o = true ->
-  forall n, In n (heads (repr W o)) -> is_builtin n = true \/ exists m, In (m, n) (imports W o).
+  forall W o, wf W o = true ->
+  forall n, In n (heads (repr W o)) ->
+  is_builtin n = true \/ exists p, In p (imports W o) /\ bound_name p = n.
 Proof. exact imports_sufficient. Qed.
 Print Assumptions C18_imports_sufficient.
 
